@@ -12,81 +12,8 @@ Open Scope string_scope.
 Open Scope list_scope.
 Open Scope Z_scope.
 
-(* oracle marker: the harness substitutes strconv.AppendFloat(nil, f, 'E', -1, 64) *)
-(* the backslash cannot occur in the rendering of a wf document, so the marker is unambiguous *)
-Definition efmt_marker (bits : Z) : bytes := str "\E64:" ++ digs bits ++ str ";".
-
-Fixpoint parse_doc (v : val) : option jdoc :=
-  match v with
-  | A a =>
-    if bytes_eqb a (str "null") then Some JNull
-    else if bytes_eqb a (str "true") then Some JTrue
-    else if bytes_eqb a (str "false") then Some JFalse
-    else None
-  | L (A n :: args) =>
-    let is s := bytes_eqb n (str s) in
-    if is "obj" then
-      match args with
-      | lg :: members =>
-        match as_bool lg,
-              (fix go (l : list val) : option (list (bytes * jdoc)) :=
-                 match l with
-                 | [] => Some []
-                 | L [k; x] :: r =>
-                   match as_hex k, parse_doc x, go r with
-                   | Some k', Some x', Some r' => Some ((k', x') :: r')
-                   | _, _, _ => None
-                   end
-                 | _ => None
-                 end) members with
-        | Some lg', Some kvs => Some (JObj lg' kvs)
-        | _, _ => None
-        end
-      | _ => None
-      end
-    else if is "arr" then
-      match args with
-      | lg :: elems =>
-        match as_bool lg,
-              (fix go (l : list val) : option (list jdoc) :=
-                 match l with
-                 | [] => Some []
-                 | x :: r =>
-                   match parse_doc x, go r with
-                   | Some x', Some r' => Some (x' :: r')
-                   | _, _ => None
-                   end
-                 end) elems with
-        | Some lg', Some vs => Some (JArr lg' vs)
-        | _, _ => None
-        end
-      | _ => None
-      end
-    else if is "str" then
-      match args with [s] => option_map JStr (as_hex s) | _ => None end
-    else if is "dec" then
-      match args with
-      | [p; s; ng; L ip; L fp] =>
-        match as_int p, as_int s, as_bool ng, map_opt as_int ip, map_opt as_int fp with
-        | Some p', Some s', Some g, Some i, Some f => Some (JDecimal p' s' g i f)
-        | _, _, _, _, _ => None
-        end
-      | _ => None
-      end
-    else
-      match map_opt as_int args with
-      | Some [z] =>
-        if is "i16" then Some (JInt16 z) else if is "u16" then Some (JUint16 z)
-        else if is "i32" then Some (JInt32 z) else if is "u32" then Some (JUint32 z)
-        else if is "i64" then Some (JInt64 z) else if is "u64" then Some (JUint64 z)
-        else if is "dbl" then Some (JDouble z) else None
-      | Some [y; m; d] => if is "date" then Some (JDate y m d) else None
-      | Some [ng; h; mi; s; us] => if is "time" then Some (JTime (negb (ng =? 0)) h mi s us) else None
-      | Some [y; m; d; h; mi; s; us] => if is "datetime" then Some (JDateTime y m d h mi s us) else None
-      | _ => None
-      end
-  | _ => None
-  end.
+(* efmt_marker and parse_doc (the <doc> syntax above) live in Model/DispatchCell.v: a JSON cell value of a row
+   image, (json <doc>), uses the same syntax. *)
 
 Definition v_json (r : res bytes) : val := vres (fun t => [vhex t]) r.
 
